@@ -126,6 +126,33 @@ void h_enh_decode(void) {
   if (!o.has_sym && o.consumed + 1 == len && len == DEC_MAXLEN) { CANARY("dangling first byte kept"); }
 }
 
+/* C14: EnhancedDevice::recv (one pass, timeout 0): passes as_running exactly while an arbitration is requested, hands the transport buffer to the
+   frame decoder and returns its verdict; a transport error other than a timeout cancels a requested arbitration (START <SYN> is written) */
+void h_enh_recv(void) {
+  EDEV d = nondet_EDEV(), r; struct Transport tr; struct DeviceListener lis; symbol_t buf[4]; size_t len = nondet_size();
+  symbol_t value = nondet_sym(); int arb_in = nondet_int(); ArbitrationState arb = (ArbitrationState)arb_in;
+  for (int i = 0; i < 4; i++) buf[i] = nondet_sym();
+  d.m_transport = &tr; d.m_listener = &lis; g_now = nondet_long();
+  __CPROVER_assume(len >= 1 && len <= 4 && DEV_OK(&d) && g_now >= 0 && g_now < (1L << 33) && (arb_in == as_none));
+  r = d; g_reqinfo_ok = nondet_bool();
+  g_rd_data = buf; g_rd_len = len; g_rd_result = nondet_bool() ? RESULT_OK : (nondet_bool() ? RESULT_ERR_TIMEOUT : RESULT_ERR_DEVICE);
+  g_ev.n = 0; g_consumed_calls = 0; g_close_calls = 0; g_reqinfo_calls = 0; g_infonotify_calls = 0; g_data_calls = 0; g_tw_n = 0; g_tw_calls = 0; g_tw_result = nondet_bool() ? RESULT_OK : RESULT_ERR_SEND;
+  result_t res = EDEV_recv(&d, 0, &value, &arb);
+  int arb0 = r.m_arbitrationMaster != 0xAA ? as_running : as_none;
+  if (g_rd_result == RESULT_OK) {
+    struct ref_out o = ref_decode_call(&r, buf, len, arb0);
+    __CPROVER_assert(res == (o.more ? RESULT_CONTINUE : o.has_sym ? RESULT_OK : RESULT_ERR_TIMEOUT) && (!o.has_sym || value == o.sym) && (int)arb == o.arb && g_consumed_calls == 1 && g_consumed == o.consumed,
+                     "[C14] recv delivers exactly what the frame decoder finds in the transport buffer (symbol, verdict, consumed bytes), with the arbitration marked as running while one is requested");
+    CANARY("data");
+  } else if (g_rd_result == RESULT_ERR_TIMEOUT) {
+    __CPROVER_assert(res == RESULT_ERR_TIMEOUT && g_consumed_calls == 0 && g_tw_calls == 0 && (int)arb == arb0 && d.m_arbitrationMaster == r.m_arbitrationMaster, "[C14] a timeout delivers nothing and keeps a requested arbitration");
+  } else {
+    __CPROVER_assert(res == g_rd_result && g_consumed_calls == 0, "[C14] a transport error is returned");
+    __CPROVER_assert(d.m_arbitrationMaster == 0xAA && d.m_arbitrationCheck == 0 && (r.m_arbitrationMaster == 0xAA ? g_tw_calls == 0 : (arb == as_error && g_tw_calls == 1 && g_tw_n == 2)), "[C03,C14] a transport error cancels a requested arbitration (START <SYN> written, verdict error)");
+    if (r.m_arbitrationMaster != 0xAA) { CANARY("cancelled"); }
+  }
+}
+
 /* C14: requests are encoded as the defined two byte sequence 11ccccdd 10dddddd */
 void h_enh_encode(void) {
   EDEV d = nondet_EDEV(); struct Transport tr; struct DeviceListener lis; symbol_t v = nondet_sym();
